@@ -50,10 +50,12 @@ PROPS = {
             dict(name="rect", workers={Q: 2, T: 2}, cases={Q: 15000, T: 120000}),
             dict(name="rectdistinct", workers={Q: 2, T: 2}, cases={Q: 10000, T: 100000}),
             dict(name="rectplain", workers={Q: 6, T: 6}, cases={Q: 8000, T: 100000}),
+            dict(name="nest3", kind="enum", workers={Q: 4, T: 2}),
+            dict(name="nest3big", kind="enum", workers={Q: 0, T: 8}),
         ],
         rule=("cases = (gp) general-position path sets, 60% nesting-heavy (stacks of 3-7 nested rings of alternating or "
               "equal orientation, second stacks, nested/random clips), 25% with open subject polylines; (rect) rectilinear "
-              "walks on lattices of even step >= 2 (touching holes, polygons split/merged by horizontal joins); (rectdistinct) rectangles with pairwise distinct coordinates (horizontal-edge machinery without coincidences). Each case runs "
+              "walks on lattices of even step >= 2 (touching holes, polygons split/merged by horizontal joins); (rectdistinct) rectangles with pairwise distinct coordinates (horizontal-edge machinery without coincidences); (rectplain) 2-6 plain rectangles on a small lattice; (nest3, exhaustive) an enclosing square plus every combination of three rectangles of the interior 4x4-cell lattice of step 2, the third as subject or as clip (32,412 inputs), judged strictly: no mismatch in this scope is attributed to KF-C04-a (thorough adds nest3big, the 5x5-cell lattice with 757,500 inputs, judged like rectplain because KF-C04-a occurs there, e.g. square (0,0)-(12,12) + (2,2)-(8,6) + (4,2)-(6,4) + (4,2)-(10,4), Union EvenOdd). Each case runs "
               "64 configurations on Clipper64 -> Paths64 and -> PolyTree64, and on ClipperD -> PathsD / PolyTreeD. Oracle: "
               "tree paths == paths result as canonical sets, open outputs equal, every node strictly inside its parent and "
               "outside its siblings (exact winding at doubled edge midpoints), orientation alternates with level (negated by "
@@ -419,9 +421,10 @@ PROPS = {
         rule=("generated workloads under ThreadSanitizer: 2-8 threads, each with its own list of 3-8 operations (Clipper64 "
               "into paths / polytree, Clipper64 fed from ONE shared read-only ReuseableDataContainer64 built before the "
               "threads start, ClipperD, ClipperOffset into paths / tree, RectClip, RectClipLines, MinkowskiSum/Diff, path "
-              "utilities, InflatePaths) on its own generated data; threads mostly run the same kinds of operation in the "
-              "same order so that the same entry points execute simultaneously. Each workload is first run sequentially "
-              "(reference), then 3 times concurrently from a start barrier. Oracle: ThreadSanitizer reports no data race "
+              "utilities, InflatePaths, ClipperOffset with a (pure) delta callback, the PathsD free functions InflatePaths/RectClip/"
+              "RectClipLines/MinkowskiSum/MinkowskiDiff/SimplifyPaths/BooleanOp, ClipperD into PolyTreeD) on its own generated data; threads mostly run the same kinds of operation in the "
+              "same order so that the same entry points execute simultaneously. Each workload is run 3 times concurrently from a start barrier, then "
+              "sequentially (reference; afterwards, so that it cannot warm lazily initialised state). Oracle: ThreadSanitizer reports no data race "
               "(halt_on_error, exit code 66 is a violation) and every thread's results are bit-identical to the sequential "
               "reference. Non-trivial = two threads executed the same entry point with overlapping time intervals "
               "(measured with per-operation timestamps)"),
